@@ -897,6 +897,15 @@ func SMTQuery(asserts []*Term, prelude []string, getModel bool) string {
 	// declarations: every declared symbol that occurs, in declaration order (prelude may mention more)
 	pre := strings.Join(prelude, "\n")
 	for _, n := range TS.order {
+		ax, ok := TS.axioms[n]
+		if ok && p.syms[n] {
+			if strings.HasPrefix(ax, "; see ") {
+				ax = TS.axioms[strings.TrimPrefix(ax, "; see ")]
+			}
+			pre += "\n;" + strings.ReplaceAll(ax, "\n", " ")
+		}
+	}
+	for _, n := range TS.order {
 		if p.syms[n] || (pre != "" && strings.Contains(pre, n)) {
 			sb.WriteString(TS.decls[n])
 			sb.WriteByte('\n')
@@ -906,11 +915,22 @@ func SMTQuery(asserts []*Term, prelude []string, getModel bool) string {
 		sb.WriteString(pre)
 		sb.WriteByte('\n')
 	}
+	emitted := map[string]bool{}
 	for _, n := range TS.order {
-		if ax, ok := TS.axioms[n]; ok && p.syms[n] {
-			sb.WriteString(ax)
-			sb.WriteByte('\n')
+		ax, ok := TS.axioms[n]
+		if !ok || !p.syms[n] {
+			continue
 		}
+		if strings.HasPrefix(ax, "; see ") {
+			n = strings.TrimPrefix(ax, "; see ")
+			ax = TS.axioms[n]
+		}
+		if emitted[n] {
+			continue
+		}
+		emitted[n] = true
+		sb.WriteString(ax)
+		sb.WriteByte('\n')
 	}
 	// defs must be interleaved in dependency order: they were appended post-order, so fine.
 	for _, d := range p.defs {
